@@ -40,6 +40,42 @@ class CtlByInstruction(execsim.CtlExecutor):
         super().__init__(SCHED[0], "ctl")
 
 
+SUBMITS: list = []  # (which executor, whose job) in submission order, for every controllable executor below
+
+
+class _Logged(execsim.CtlExecutor):
+    """a controllable executor that says where each job was sent"""
+
+    def __init__(self, tag):
+        super().__init__(SCHED[0], "ctl")
+        self.tag = tag
+
+    def submit(self, fn, /, *args, **kwargs):
+        owner = getattr(fn, "__self__", None)
+        SUBMITS.append((self.tag, getattr(owner, "label", "?")))
+        return super().submit(fn, *args, **kwargs)
+
+
+class CtlNamed(_Logged):
+    """instructions by CLASS with arguments: `(CtlNamed, ("n",), {"flavour": "x"})`"""
+
+    def __init__(self, name="anon", flavour="plain"):
+        super().__init__(f"class:{name}:{flavour}")
+
+
+_PROVIDED: dict = {}
+
+
+def provide_ctl(name="shared", flavour="plain"):
+    """instructions by PROVIDER FUNCTION — `(provide_ctl, ("pool",), {})` — the documented way to let several nodes
+    share one executor: everybody asking under the same name (during one run) gets the same object"""
+    key = (id(SCHED[0]), name, flavour)
+    if key not in _PROVIDED:
+        _PROVIDED.clear() if len(_PROVIDED) > 50 else None
+        _PROVIDED[key] = _Logged(f"provider:{name}:{flavour}")
+    return _PROVIDED[key]
+
+
 class SnapScheduler(execsim.Scheduler):
     """a scheduler that, at its `snap_at`-th schedule point, lets the harness pickle the graph root — with children out
     on the executor, from inside a completion callback, at the composite's idle point … — deterministically"""
@@ -183,6 +219,12 @@ def make_child(spec):
         n.executor = execsim.CtlExecutor(SCHED[0], "ctl")  # a live executor object (not part of any state)
     elif spec.get("exec") == "ctli":
         n.executor = (CtlByInstruction, (), {})  # instructions: survive the round trip
+    elif spec.get("exec") == "ctlik":  # by class, with positional and keyword arguments
+        n.executor = (CtlNamed, (spec.get("exec_name", "n"),), {"flavour": "kw"})
+    elif spec.get("exec") == "ctlp":  # by provider function, positional argument
+        n.executor = (provide_ctl, (spec.get("exec_name", "pool"),), {})
+    elif spec.get("exec") == "ctlpk":  # by provider function, keyword arguments only
+        n.executor = (provide_ctl, (), {"name": spec.get("exec_name", "pool"), "flavour": "kw"})
     if spec.get("serialize"):
         n._serialize_result = True  # the job leaves its result in a file: a broken process can be resumed
     return n
